@@ -546,7 +546,7 @@ Qed.
 Lemma pstep_closed producer c o st sg st' : p_closed st = true -> pstep producer c o st = (sg, st') ->
   p_closed st' = true /\ refusal o sg.
 Proof.
-  intros Hc. destruct o as [k| |rej| |]; cbn [pstep].
+  intros Hc. destruct o as [k| |rej| | |d|]; cbn [pstep].
   - destruct (do_iter (pfuel st) c k st) as [[es cs] st1] eqn:E. intro H. inversion H; subst.
     destruct (do_iter_spec _ _ _ _ _ _ _ E) as [_ H2]. destruct (H2 Hc) as [H3 [-> [H5 H6]]].
     split; [exact H3|]. split; [reflexivity|]. split; [exact H5|]. cbn [fst]. apply H6. unfold pfuel. discriminate.
@@ -561,13 +561,17 @@ Proof.
     destruct (H8 Hc) as [-> [-> ->]]. intro H. inversion H; subst. split; [exact Hc|]. repeat split.
   - destruct (do_close c true st) as [[es cs] st1] eqn:E. destruct (do_close_spec _ _ _ _ _ _ E) as [_ [_ [_ [_ [_ [_ [_ H8]]]]]]].
     destruct (H8 Hc) as [-> [-> ->]]. intro H. inversion H; subst. split; [exact Hc|]. repeat split.
+  - destruct (do_close c true st) as [[es cs] st1] eqn:E. destruct (do_close_spec _ _ _ _ _ _ E) as [_ [_ [_ [_ [_ [_ [_ H8]]]]]]].
+    destruct (H8 Hc) as [-> [-> ->]]. intro H. inversion H; subst. split; [exact Hc|]. repeat split.
+  - destruct (do_tick c true None st) as [[[es cs] st1] o] eqn:E. destruct (do_tick_spec _ _ _ _ _ _ _ _ E) as [_ [_ [_ H4]]].
+    destruct (H4 Hc) as [-> [-> [-> _]]]. intro H. inversion H; subst. split; [exact Hc|]. repeat split. left. reflexivity.
 Qed.
 
 (* only cancel() makes the server run on_cancel, at most once, and it closes the session *)
 Lemma pstep_cancels producer c o st sg st' : pstep producer c o st = (sg, st') ->
-  cancels (snd sg) = O \/ (o = OCancel /\ p_closed st = false /\ p_closed st' = true /\ (cancels (snd sg) <= 1)%nat).
+  cancels (snd sg) = O \/ (is_cancel_op o = true /\ p_closed st = false /\ p_closed st' = true /\ (cancels (snd sg) <= 1)%nat).
 Proof.
-  destruct o as [k| |rej| |]; cbn [pstep].
+  destruct o as [k| |rej| | |d|]; cbn [pstep].
   - destruct (do_iter (pfuel st) c k st) as [[es cs] st1] eqn:E. intro H. inversion H; subst. left. exact (proj1 (do_iter_spec _ _ _ _ _ _ _ E)).
   - destruct (p_it st); try (intro H; inversion H; subst; left; reflexivity).
     destruct (do_tick c true None st) as [[[es cs] st1] o] eqn:E. intro H. inversion H; subst. left. exact (proj1 (do_tick_spec _ _ _ _ _ _ _ _ E)).
@@ -578,6 +582,11 @@ Proof.
     intro H. inversion H; subst. destruct (p_closed st) eqn:Ec.
     + left. destruct (H8 eq_refl) as [_ [-> _]]. reflexivity.
     + right. repeat split; assumption.
+  - destruct (do_close c true st) as [[es cs] st1] eqn:E. destruct (do_close_spec _ _ _ _ _ _ E) as [_ [_ [_ [H4 [_ [_ [H7 H8]]]]]]].
+    intro H. inversion H; subst. destruct (p_closed st) eqn:Ec.
+    + left. destruct (H8 eq_refl) as [_ [-> _]]. reflexivity.
+    + right. repeat split; assumption.
+  - destruct (do_tick c true None st) as [[[es cs] st1] o] eqn:E. intro H. inversion H; subst. left. exact (proj1 (do_tick_spec _ _ _ _ _ _ _ _ E)).
 Qed.
 
 Lemma run_ops_closed producer c : forall ops st segs st', p_closed st = true -> run_ops (pstep producer c) ops st = (segs, st') ->
@@ -606,11 +615,11 @@ Proof.
       * rewrite Hc1 in Hrest. lia.
 Qed.
 
-Lemma pstep_cancel_op producer c st sg st' : pstep producer c OCancel st = (sg, st') ->
+Lemma pstep_cancel_op producer c oc st sg st' : is_cancel_op oc = true -> pstep producer c oc st = (sg, st') ->
   errors_of (fst sg) = [] /\ batches_of (fst sg) = [] /\ processes (snd sg) = [] /\ p_closed st' = true.
 Proof.
-  cbn [pstep]. destruct (do_close c true st) as [[es cs] st1] eqn:E. destruct (do_close_spec _ _ _ _ _ _ E) as [H1 [H2 [H3 [H4 _]]]].
-  intro H. inversion H; subst. repeat split; assumption.
+  intro Hoc. destruct oc; try discriminate Hoc; cbn [pstep]; destruct (do_close c true st) as [[es cs] st1] eqn:E; destruct (do_close_spec _ _ _ _ _ _ E) as [H1 [H2 [H3 [H4 _]]]];
+  intro H; inversion H; subst; repeat split; assumption.
 Qed.
 
 (* an input that _coerce_input_batch rejects never reaches process() *)
@@ -653,11 +662,11 @@ Qed.
 
 Lemma hnext_spec fixed cfg sts c st es cs st' o : hnext fixed cfg sts c st = (es, cs, st', o) ->
   cancels cs = O /\ h_same st st'
-  /\ (fixed = true -> h_canc st = true -> es = [refused] /\ cs = [] /\ o = TErr).
+  /\ (fixed = true -> h_canc st = true -> es = [refused] /\ cs = [] /\ o = TErr /\ h_pend st' = h_pend st).
 Proof.
   unfold hnext. destruct (fixed && h_canc st) eqn:Ef.
   - intro H. inversion H; subst. split; [reflexivity|]. split; [apply h_same_it|]. intros _ _. repeat split.
-  - assert (Hno : fixed = true -> h_canc st = true -> es = [refused] /\ cs = [] /\ o = TErr).
+  - assert (Hno : fixed = true -> h_canc st = true -> es = [refused] /\ cs = [] /\ o = TErr /\ h_pend st' = h_pend st).
     { intros -> Hc. rewrite Hc in Ef. discriminate Ef. }
     destruct (h_it st) as [| |fs|].
     + intro H. inversion H; subst. split; [reflexivity|]. split; [apply h_same_refl|exact Hno].
@@ -678,7 +687,7 @@ Qed.
 
 Lemma hiter_spec fixed cfg sts c : forall n k st es cs st', hiter n fixed cfg sts c k st = (es, cs, st') ->
   cancels cs = O /\ h_same st st'
-  /\ (fixed = true -> h_canc st = true -> cs = [] /\ batches_of es = [] /\ (n <> O -> es = if is_zero k then [] else [refused])).
+  /\ (fixed = true -> h_canc st = true -> cs = [] /\ batches_of es = [] /\ (n <> O -> es = if is_zero k then [] else [refused]) /\ h_pend st' = h_pend st).
 Proof.
   induction n as [|n IH]; intros k st es cs st'; cbn [hiter].
   - destruct (is_zero k); intro H; inversion H; subst; (split; [reflexivity|]); (split; [apply h_same_refl|]); intros _ _; repeat split; congruence.
@@ -688,38 +697,44 @@ Proof.
       destruct o.
       * destruct (hiter n fixed cfg sts c (opred k) st1) as [[es2 cs2] st2] eqn:Ei. destruct (IH _ _ _ _ _ Ei) as [I1 [I2 _]].
         intro H. inversion H; subst. split; [rewrite cancels_app, H1, I1; reflexivity|]. split; [exact (h_same_trans _ _ _ H2 I2)|].
-        intros Hf Hc. destruct (H3 Hf Hc) as [_ [_ Ho]]. discriminate Ho.
-      * intro H. inversion H; subst. split; [exact H1|]. split; [exact H2|]. intros Hf Hc. destruct (H3 Hf Hc) as [-> [-> _]]. repeat split.
-      * intro H. inversion H; subst. split; [exact H1|]. split; [exact H2|]. intros Hf Hc. destruct (H3 Hf Hc) as [-> [-> _]]. repeat split.
-      * intro H. inversion H; subst. split; [exact H1|]. split; [exact H2|]. intros Hf Hc. destruct (H3 Hf Hc) as [-> [-> _]]. repeat split.
+        intros Hf Hc. destruct (H3 Hf Hc) as [_ [_ [Ho _]]]. discriminate Ho.
+      * intro H. inversion H; subst. split; [exact H1|]. split; [exact H2|]. intros Hf Hc. destruct (H3 Hf Hc) as [-> [-> [_ Hp]]]. repeat split; try exact Hp.
+      * intro H. inversion H; subst. split; [exact H1|]. split; [exact H2|]. intros Hf Hc. destruct (H3 Hf Hc) as [-> [-> [_ Hp]]]. repeat split; try exact Hp.
+      * intro H. inversion H; subst. split; [exact H1|]. split; [exact H2|]. intros Hf Hc. destruct (H3 Hf Hc) as [-> [-> [_ Hp]]]. repeat split; try exact Hp.
 Qed.
 
 
-Lemma hK_same a b : h_same a b -> hK b = hK a.
-Proof. unfold hK. intros [-> [-> _]]. reflexivity. Qed.
+Lemma hK_keep a b : h_same a b -> h_pend b = h_pend a -> hK b = hK a.
+Proof. unfold hK. intros [-> [-> _]] ->. reflexivity. Qed.
 
 Lemma hstep_closed cfg sts c o st sg st' : hK st = true -> hstep true cfg sts c o st = (sg, st') ->
   hK st' = true /\ refusal o sg.
 Proof.
-  intro HK. pose proof HK as HK'. unfold hK in HK'. apply andb_true_iff in HK' as [Hc Hf].
-  destruct o as [k| |rej| |]; cbn [hstep].
+  intro HK. pose proof HK as HK'. unfold hK in HK'. apply andb_true_iff in HK' as [HK' Hp]. apply andb_true_iff in HK' as [Hc Hf].
+  destruct o as [k| |rej| | |d|]; cbn [hstep].
   - destruct (hiter _ true cfg sts c k (h_set_it st HPend)) as [[es cs] st1] eqn:E.
-    destruct (hiter_spec _ _ _ _ _ _ _ _ _ _ E) as [_ [H2 H3]]. destruct (H3 eq_refl Hc) as [-> [H5 H6]].
-    intro H. inversion H; subst. split; [rewrite (hK_same _ _ H2); exact HK|]. split; [reflexivity|]. split; [exact H5|].
+    destruct (hiter_spec _ _ _ _ _ _ _ _ _ _ E) as [_ [H2 H3]]. destruct (H3 eq_refl Hc) as [-> [H5 [H6 H7]]].
+    intro H. inversion H; subst. split; [rewrite (hK_keep _ _ H2 H7); exact HK|]. split; [reflexivity|]. split; [exact H5|].
     cbn [fst]. apply H6. discriminate.
   - destruct (suspended (h_it st)).
     + destruct (hnext true cfg sts c st) as [[[es cs] st1] o] eqn:E. destruct (hnext_spec _ _ _ _ _ _ _ _ _ E) as [_ [H2 H3]].
-      destruct (H3 eq_refl Hc) as [-> [-> _]]. intro H. inversion H; subst. split; [rewrite (hK_same _ _ H2); exact HK|]. repeat split. left. reflexivity.
+      destruct (H3 eq_refl Hc) as [-> [-> [_ H7]]]. intro H. inversion H; subst. split; [rewrite (hK_keep _ _ H2 H7); exact HK|]. repeat split. left. reflexivity.
     + intro H. inversion H; subst. split; [exact HK|]. repeat split. right. reflexivity.
   - rewrite Hc. cbn [andb]. intro H. inversion H; subst. split; [exact HK|]. repeat split.
   - intro H. inversion H; subst. split; [exact HK|]. repeat split.
   - rewrite Hf. intro H. inversion H; subst. split; [reflexivity|]. repeat split.
+  - rewrite Hf. intro H. inversion H; subst. split; [reflexivity|]. repeat split.
+  - destruct (h_pend st) as [|b r]; [|discriminate Hp]. rewrite Hf. cbn [orb]. intro H. inversion H; subst.
+    split; [unfold hK; cbn; rewrite Hc; reflexivity|]. repeat split. right. reflexivity.
 Qed.
 
+Lemma hnt_turn_calls cfg sts t : cancels (snd (http_turn cfg (skipn t sts) t (base cfg))) = O.
+Proof. destruct (http_turn cfg (skipn t sts) t (base cfg)) as [fs cs] eqn:E. exact (http_turn_calls _ _ _ _ _ _ E). Qed.
+
 Lemma hstep_cancels cfg sts c o st sg st' : hstep true cfg sts c o st = (sg, st') ->
-  cancels (snd sg) = O \/ (o = OCancel /\ hK st' = true /\ (cancels (snd sg) <= 1)%nat).
+  cancels (snd sg) = O \/ (is_cancel_op o = true /\ hK st' = true /\ (cancels (snd sg) <= 1)%nat).
 Proof.
-  destruct o as [k| |rej| |]; cbn [hstep].
+  destruct o as [k| |rej| | |d|]; cbn [hstep].
   - destruct (hiter _ true cfg sts c k (h_set_it st HPend)) as [[es cs] st1] eqn:E. intro H. inversion H; subst. left. exact (proj1 (hiter_spec _ _ _ _ _ _ _ _ _ _ E)).
   - destruct (suspended (h_it st)); [|intro H; inversion H; subst; left; reflexivity].
     destruct (hnext true cfg sts c st) as [[[es cs] st1] o] eqn:E. intro H. inversion H; subst. left. exact (proj1 (hnext_spec _ _ _ _ _ _ _ _ _ E)).
@@ -732,6 +747,13 @@ Proof.
   - intro H. inversion H; subst. left. reflexivity.
   - destruct (h_fin st); [intro H; inversion H; subst; left; reflexivity|].
     destruct (h_tok st); intro H; inversion H; subst; [right; repeat split; cbn; lia|left; reflexivity].
+  - destruct (h_fin st); [intro H; inversion H; subst; left; reflexivity|].
+    destruct (h_tok st); intro H; inversion H; subst; [right; repeat split; destruct d; cbn; lia|left; reflexivity].
+  - destruct (h_pend st) as [|b [|b2 r]]; [|intro H; inversion H; subst; left; reflexivity|intro H; inversion H; subst; left; reflexivity].
+    destruct (h_fin st || match h_tok st with Some _ => false | None => true end); [intro H; inversion H; subst; left; reflexivity|].
+    destruct (h_tok st) as [t|]; [|intro H; inversion H; subst; left; reflexivity].
+    pose proof (hnt_turn_calls cfg sts t) as Hc. destruct (http_turn cfg (skipn t sts) t (base cfg)) as [fs cs]. cbn [snd] in Hc.
+    destruct (hnt_scan c fs None None) as [es r]. destruct r as [[b|] t'|e| |]; intro H; inversion H; subst; left; exact Hc.
 Qed.
 
 Lemma hrun_closed cfg sts c : forall ops st segs st', hK st = true -> run_ops (hstep true cfg sts c) ops st = (segs, st') ->
@@ -760,11 +782,14 @@ Proof.
       * rewrite Hc1 in Hrest. lia.
 Qed.
 
-Lemma hstep_cancel_op cfg sts c st sg st' : hstep true cfg sts c OCancel st = (sg, st') ->
+Lemma hstep_cancel_op cfg sts c oc st sg st' : is_cancel_op oc = true -> hstep true cfg sts c oc st = (sg, st') ->
   fst sg = [] /\ processes (snd sg) = [] /\ hK st' = true.
 Proof.
-  cbn [hstep]. destruct (h_fin st); [intro H; inversion H; subst; repeat split|].
-  destruct (h_tok st); intro H; inversion H; subst; repeat split.
+  intro Hoc. destruct oc as [| | | | |d|]; try discriminate Hoc; cbn [hstep].
+  - destruct (h_fin st); [intro H; inversion H; subst; repeat split|].
+    destruct (h_tok st); intro H; inversion H; subst; repeat split.
+  - destruct (h_fin st); [intro H; inversion H; subst; repeat split|].
+    destruct (h_tok st); intro H; inversion H; subst; repeat split; destruct d; reflexivity.
 Qed.
 
 Lemma hstep_rejected cfg sts c e st sg st' : hstep true cfg sts c (OExch (Some e)) st = (sg, st') -> snd sg = [].
@@ -902,39 +927,39 @@ Qed.
 Lemma all_calls_app a b : all_calls (a ++ b) = all_calls a ++ all_calls b.
 Proof. unfold all_calls. apply flat_map_app. Qed.
 
-Theorem after_cancel_pipe : forall producer c st0 pre post segs1 st1 sgc st2 segs2 st3,
-  p_closed st0 = false ->
-  run_ops (pstep producer c) pre st0 = (segs1, st1) -> pstep producer c OCancel st1 = (sgc, st2) ->
+Theorem after_cancel_pipe : forall producer c oc st0 pre post segs1 st1 sgc st2 segs2 st3,
+  p_closed st0 = false -> is_cancel_op oc = true ->
+  run_ops (pstep producer c) pre st0 = (segs1, st1) -> pstep producer c oc st1 = (sgc, st2) ->
   run_ops (pstep producer c) post st2 = (segs2, st3) ->
   processes (snd sgc ++ all_calls segs2) = []
   /\ (cancels (all_calls segs1 ++ snd sgc ++ all_calls segs2) <= 1)%nat
   /\ errors_of (fst sgc) = []
   /\ Forall2 refusal post segs2.
 Proof.
-  intros producer c st0 pre post segs1 st1 sgc st2 segs2 st3 H0 R1 Rc R2.
-  destruct (pstep_cancel_op _ _ _ _ _ Rc) as [C1 [_ [C3 C4]]].
+  intros producer c oc st0 pre post segs1 st1 sgc st2 segs2 st3 H0 Hoc R1 Rc R2.
+  destruct (pstep_cancel_op _ _ _ _ _ _ Hoc Rc) as [C1 [_ [C3 C4]]].
   destruct (run_ops_closed _ _ _ _ _ _ C4 R2) as [F [A _]].
   split; [rewrite A, app_nil_r; exact C3|]. split; [|split; [exact C1|exact F]].
-  pose proof (run_ops_cancels producer c (pre ++ OCancel :: post) st0) as Hall.
+  pose proof (run_ops_cancels producer c (pre ++ oc :: post) st0) as Hall.
   rewrite run_ops_app, R1 in Hall. cbn [run_ops] in Hall. rewrite Rc, R2 in Hall.
   specialize (Hall _ _ eq_refl). rewrite H0 in Hall. rewrite all_calls_app in Hall. unfold all_calls at 2 in Hall. cbn [flat_map] in Hall.
   fold (all_calls segs2) in Hall. exact Hall.
 Qed.
 
-Theorem after_cancel_http : forall cfg sts c st0 pre post segs1 st1 sgc st2 segs2 st3,
-  hK st0 = false ->
-  run_ops (hstep true cfg sts c) pre st0 = (segs1, st1) -> hstep true cfg sts c OCancel st1 = (sgc, st2) ->
+Theorem after_cancel_http : forall cfg sts c oc st0 pre post segs1 st1 sgc st2 segs2 st3,
+  hK st0 = false -> is_cancel_op oc = true ->
+  run_ops (hstep true cfg sts c) pre st0 = (segs1, st1) -> hstep true cfg sts c oc st1 = (sgc, st2) ->
   run_ops (hstep true cfg sts c) post st2 = (segs2, st3) ->
   processes (snd sgc ++ all_calls segs2) = []
   /\ (cancels (all_calls segs1 ++ snd sgc ++ all_calls segs2) <= 1)%nat
   /\ fst sgc = []
   /\ Forall2 refusal post segs2.
 Proof.
-  intros cfg sts c st0 pre post segs1 st1 sgc st2 segs2 st3 H0 R1 Rc R2.
-  destruct (hstep_cancel_op _ _ _ _ _ _ Rc) as [C1 [C3 C4]].
+  intros cfg sts c oc st0 pre post segs1 st1 sgc st2 segs2 st3 H0 Hoc R1 Rc R2.
+  destruct (hstep_cancel_op _ _ _ _ _ _ _ Hoc Rc) as [C1 [C3 C4]].
   destruct (hrun_closed _ _ _ _ _ _ _ C4 R2) as [F [A _]].
   split; [rewrite A, app_nil_r; exact C3|]. split; [|split; [exact C1|exact F]].
-  pose proof (hrun_cancels cfg sts c (pre ++ OCancel :: post) st0) as Hall.
+  pose proof (hrun_cancels cfg sts c (pre ++ oc :: post) st0) as Hall.
   rewrite run_ops_app, R1 in Hall. cbn [run_ops] in Hall. rewrite Rc, R2 in Hall.
   specialize (Hall _ _ eq_refl). rewrite H0 in Hall. rewrite all_calls_app in Hall. unfold all_calls at 2 in Hall. cbn [flat_map] in Hall.
   fold (all_calls segs2) in Hall. exact Hall.
